@@ -29,8 +29,8 @@ Mk(f, sch, d, nv, unk) == [files |-> f, sched |-> sch, deps |-> d, never |-> nv,
 
 \* --- C08: every list shape x every postponement schedule -------------------
 C08Of(n, F, maxp) == {Mk(f, sch, NoDeps(n), {}, {}) : f \in F, sch \in [1..n -> 0..maxp]}
-C08Full  == UNION {C08Of(n, Files1(n), 2) : n \in 0..4} \cup UNION {C08Of(n, Files2(n), 2) : n \in 1..3}
-C08Small == UNION {C08Of(n, Files1(n) \cup Files2(n), 2) : n \in 0..3}
+C08Full(u)  == UNION {C08Of(n, Files1(n), 2) : n \in 0..4} \cup UNION {C08Of(n, Files2(n), 2) : n \in 1..3}
+C08Small(u) == UNION {C08Of(n, Files1(n) \cup Files2(n), 2) : n \in 0..3}
 
 \* --- C09: every dependency structure (no self loops: that is `never`) -------
 DepsOf(n) == {d \in [1..n -> SUBSET (1..n)] : \A i \in 1..n : i \notin d[i]}
@@ -40,11 +40,11 @@ LayoutsAll(n) == {<<OneList(1, n)>>, <<Singles(1, n)>>, <<Mixed(1, n)>>}
 LayoutsFew(n) == {<<Mixed(1, n)>>} \cup {<<Singles(1, k), OneList(k + 1, n)>> : k \in {1, n \div 2}}
                  \cup {<<OneList(1, k), Singles(k + 1, n)>> : k \in {n - 1}}
 C09Of(n, L, NV) == {Mk(f, NoSched(n), d, nv, {}) : f \in L, d \in DepsOf(n), nv \in NV}
-C09Small == UNION {C09Of(n, LayoutsAll(n), SUBSET (1..n)) : n \in 0..3}
-C09Four  == C09Of(4, LayoutsFew(4), {{}})
-C09FourNever == C09Of(4, LayoutsFew(4), SUBSET (1..4))
+C09Small(u) == UNION {C09Of(n, LayoutsAll(n), SUBSET (1..n)) : n \in 0..3}
+C09Four(u)  == C09Of(4, LayoutsFew(4), {{}})
+C09FourNever(u) == C09Of(4, LayoutsFew(4), SUBSET (1..4))
 \* schedules, dependencies, never-resolving and unknown references together
-MixedSmall == UNION {{Mk(f, sch, d, nv, unk) : f \in {<<Mixed(1, n)>>, <<Singles(1, 1), Mixed(2, n)>>},
+MixedSmall(u) == UNION {{Mk(f, sch, d, nv, unk) : f \in {<<Mixed(1, n)>>, <<Singles(1, 1), Mixed(2, n)>>},
                         sch \in [1..n -> 0..1], d \in DepsOf(n), nv \in SUBSET (1..n),
                         unk \in {{}} \cup {{r} : r \in 1..n}} : n \in 1..3}
 
@@ -58,12 +58,12 @@ ScCode(s)  == LET n == NOf(s)
                   Sum(i) == IF i > n THEN 0 ELSE (SetCode(s.deps[i]) + s.sched[i]) * (2 * i + 1) + Sum(i + 1)
               IN Sum(1) + SetCode(s.never) + Len(s.files) + Len(s.files[1])
 Family(name) ==
-  CASE name = "c08"      -> C08Full
-    [] name = "c08small" -> C08Small
-    [] name = "c09small" -> C09Small
-    [] name = "c09four"  -> C09Four
-    [] name = "c09never" -> C09FourNever
-    [] name = "mixed"    -> MixedSmall
+  CASE name = "c08"      -> C08Full(0)
+    [] name = "c08small" -> C08Small(0)
+    [] name = "c09small" -> C09Small(0)
+    [] name = "c09four"  -> C09Four(0)
+    [] name = "c09never" -> C09FourNever(0)
+    [] name = "mixed"    -> MixedSmall(0)
 EnvScenarios == LET nsh == NatOf(IOEnv.VT_NSHARDS)
                     sh  == NatOf(IOEnv.VT_SHARD)
                 IN {s \in Family(IOEnv.VT_FAMILY) : ScCode(s) % nsh = sh}
